@@ -102,7 +102,8 @@ fn main() {
         let text = std::fs::read_to_string(path).expect("read replay file");
         for line in text.lines() {
             let fields: Vec<&str> = line.split('\t').collect();
-            if fields.is_empty() || fields[0] != args[1] && !fields[0].starts_with(&args[1]) {
+            // suite `any`: every line is dispatched by its own tag (a suite may emit cases of another suite's tag)
+            if fields.is_empty() || args[1] != "any" && fields[0] != args[1] && !fields[0].starts_with(&args[1]) {
                 continue;
             }
             let end = fields.iter().position(|f| *f == "=>").unwrap_or(fields.len());
